@@ -142,14 +142,28 @@ fn all_orders_space(rep: &mut Report, n: usize) {
                 for i in 0..n {
                     w[ord[i]] = base[i];
                 }
-                let w64: Vec<u64> = w.iter().map(|x| *x as u64).collect();
-                monitor::beat(kind, &w64);
+                let mut w64 = [0u64; 7];
+                for i in 0..n {
+                    w64[i] = w[i] as u64;
+                }
+                monitor::beat(kind, &w64[..n]);
                 acc.cases += 1;
                 acc.calls += 1 + n as u64;
                 acc.nontrivial += 1;
                 let ok = matches!(guard(|| {
                     let v = AnyHand::from_words(&w).value().unwrap();
-                    let m = (0..n).map(|i| AnyHand::from_words(&without(&w, i)).value().unwrap()).min().unwrap();
+                    let mut m = u16::MAX;
+                    let mut sub = [0u32; 6];
+                    for i in 0..n {
+                        let mut k = 0;
+                        for j in 0..n {
+                            if j != i {
+                                sub[k] = w[j];
+                                k += 1;
+                            }
+                        }
+                        m = m.min(AnyHand::from_words(&sub[..n - 1]).value().unwrap());
+                    }
                     (v, m)
                 }), Ok((v, m)) if v == m);
                 if !ok {
@@ -167,8 +181,10 @@ fn all_orders_space(rep: &mut Report, n: usize) {
 }
 
 pub fn run(ctx: &Ctx, rep: &mut Report) {
-    space(ctx, rep, 6);
-    space(ctx, rep, 7);
+    if !ctx.lean {
+        space(ctx, rep, 6);
+        space(ctx, rep, 7);
+    }
     all_orders_space(rep, 6);
     all_orders_space(rep, 7);
     {
